@@ -61,6 +61,10 @@ claimed = {
    text="A fixed, enumerated single-fault space (3519 faults: 27 backend/curve combinations x component x fault kind x position) is injected one at a time into the real daemon running closed loop in its own process under the simulator; thorough covers the whole list, quick a window of it chosen by VERIF_SEED; pairs of faults are sampled. After each run: no Go panic, no unrequested exit that leaves a fan unrestored, and every fan either still regulated at the end or stopped and restored.",
    note="Exhaustive only over the listed single-fault space; pairs are sampled. An orderly whole-daemon shutdown that restores every fan is accepted as 'stops regulating after restoring'. EIO/EINVAL/timeouts are returned by the seam; other faults are produced on the real files and scripts.",
    tech="deterministic simulation with enumerated fault injection (one OS process per fault), survival + restore oracle"),
+ "C11": dict(cat="exploration", ref="§3/C11",
+   text="Generated YAML text (documented forms and seeded defects over curve graphs, ids, backends, references and option spellings) goes through the real `fan2go config validate` in its own process; an independent validator over the YAML text decides well-formedness (accepted => well-formed; documented-forms-only => accepted); every accepted document is booted by the real daemon in the simulated world, every curve evaluated under several sensor states, and each fan must complete control cycles without panic, stack overflow or stall.",
+   note="Trusted: the harness's own spec validator (yaml.v3) and document generator; hwmon entries always name existing devices (binding failures belong to C17). A decode failure ending in a panic trace counts as rejection.",
+   tech="generated configurations through the real loader/validator + boot in the deterministic simulation (process per document)"),
 }
 checks = []
 for p in props:
